@@ -1,5 +1,6 @@
 """Helpers shared by the per-property rule modules."""
 import ast
+import os
 
 from ..index import (AnalysisError, norm, norm_stmt, walk_no_nested, calls_in, parent_map, enclosing_stmt,
                      call_name, attr_chain, names_in, get_kwarg, const_value)
@@ -1302,6 +1303,7 @@ def generic_rules(prop, index, rep):
     with rep.section(rid5):
         npc = protocol_rule(index, rep, rid5, mods + ["dendropy.utility.error"])
         npc += resized_while_iterated_rule(index, rep, rid5, mods)
+        npc += called_method_exists_rule(index, rep, rid5, mods)
         rep.ob(rid5, "src/dendropy", "%d in-place operator methods and format calls examined" % npc, True, nontrivial=npc > 0)
     rid6 = "R%s.D" % prop[1:]
     rep.rule(rid6, "literal dispatch chains in the property's modules have no dead branch: no branch of an if/elif chain over string keywords tests only keywords that an earlier branch already accepts")
@@ -1410,6 +1412,81 @@ def alias_restore_rule(index, rep, rid, modules):
                 if muts:
                     rep.check(False, rid, fi.qualname, "`%s` restored from an alias of itself" % tgt, fn_where(fi, st), "",
                               "%s saves `%s = %s`, changes `%s` IN PLACE (`%s`) and then 'restores' it with `%s`: `%s` is the same object that was changed, so nothing is restored and the temporary setting stays in force for the rest of the run - save a copy (set(...) / list(...) / dict(...)) instead" % (fi.qualname, st.value.id, tgt, tgt, norm(muts[0])[:50] if not isinstance(muts[0], ast.stmt) else norm_stmt(muts[0])[:50], norm_stmt(st)[:60], st.value.id))
+    return n
+
+
+_KNOWN_ATTRS = {}
+_STD_ROOTS = {"os", "sys", "math", "re", "copy", "random", "itertools", "collections", "json", "csv", "warnings", "time", "logging", "textwrap", "subprocess", "tempfile", "shutil",
+              "platform", "argparse", "operator", "functools", "io", "string", "inspect", "types", "locale", "codecs", "gzip", "zipfile", "pickle", "struct", "threading",
+              "multiprocessing", "queue", "datetime", "decimal", "fractions", "xml", "ElementTree", "ET", "pprint", "traceback", "unittest", "numpy", "np", "scipy", "urllib",
+              "socket", "signal", "pkgutil", "importlib", "glob", "fnmatch", "hashlib", "base64", "uuid", "bisect", "heapq", "array", "weakref", "abc", "contextlib", "errno", "stat"}
+
+
+def _known_attrs(index):
+    """every name that can be an attribute of some object the library handles: anything defined or stored under
+    src/dendropy (all directories, including those the index does not analyse) plus the attributes of the standard
+    types the library uses."""
+    r = _KNOWN_ATTRS.get(id(index))
+    if r is None:
+        import io as _io, collections as _c, re as _re, random as _rnd, csv as _csv, threading as _th, decimal as _dec, fractions as _fr, logging as _lg, argparse as _ap, subprocess as _sp, queue as _q, datetime as _dt, pathlib as _pl
+        import xml.etree.ElementTree as _et
+        r = set()
+        for t in (str, bytes, bytearray, list, dict, set, frozenset, tuple, int, float, complex, bool, range, slice, property, object, type, BaseException, Exception,
+                  _io.StringIO, _io.BytesIO, _io.TextIOWrapper, _io.BufferedReader, _c.OrderedDict, _c.defaultdict, _c.deque, _c.Counter, type(_re.compile("")), type(_re.match("", "")),
+                  _rnd.Random, _dec.Decimal, _fr.Fraction, _lg.Logger, _lg.Handler, _lg.Formatter, _ap.ArgumentParser, _ap.Namespace, _ap._ArgumentGroup, _sp.Popen, _th.Thread, _th.Event, _th.Lock().__class__,
+                  _q.Queue, _et.Element, _et.ElementTree, _dt.datetime, _dt.timedelta, _pl.PurePath, _pl.Path, _csv.DictWriter, _csv.DictReader, type(_csv.reader([])), type(_csv.writer(_io.StringIO())),
+                  type(iter([])), type((x for x in [])), type(lambda: 0), type(_io)):
+            r |= set(dir(t))
+        try:
+            import multiprocessing as _mp
+            r |= set(dir(_mp.Process)) | set(dir(_mp.queues.Queue))
+        except Exception:
+            pass
+        for dp, dn, fns in os.walk(index.pkgroot):
+            for fn in fns:
+                if not fn.endswith(".py"):
+                    continue
+                try:
+                    with open(os.path.join(dp, fn), encoding="utf-8") as fh:
+                        tr = ast.parse(fh.read())
+                except (SyntaxError, UnicodeDecodeError):
+                    continue
+                for x in ast.walk(tr):
+                    if isinstance(x, (ast.FunctionDef, ast.AsyncFunctionDef, ast.ClassDef)):
+                        r.add(x.name)
+                    elif isinstance(x, ast.Attribute) and isinstance(x.ctx, (ast.Store, ast.Del)):
+                        r.add(x.attr)
+                    elif isinstance(x, ast.Name) and isinstance(x.ctx, ast.Store):
+                        r.add(x.id)
+                    elif isinstance(x, ast.Call) and isinstance(x.func, ast.Name) and x.func.id == "setattr" and len(x.args) > 1 and isinstance(x.args[1], ast.Constant):
+                        r.add(x.args[1].value)
+                    elif isinstance(x, ast.alias):
+                        r.add((x.asname or x.name).split(".")[-1])
+        _KNOWN_ATTRS[id(index)] = r
+    return r
+
+
+def called_method_exists_rule(index, rep, rid, modules):
+    """what is called exists: a method call `obj.name(...)` on an object of the library uses a name that is defined or
+    stored somewhere under src/dendropy, or that a standard type has - a name nobody defines is an AttributeError
+    waiting for the first input that reaches the call."""
+    known = _known_attrs(index)
+    n = 0
+    for m in modules:
+        mod = index.module(m)
+        for fi in index.functions_in_module(m):
+            for c in calls_in(fi.node, nested=True):
+                if not isinstance(c.func, ast.Attribute):
+                    continue
+                n += 1
+                nm = c.func.attr
+                if nm in known:
+                    continue
+                root = norm(c.func.value).split(".")[0].split("(")[0].split("[")[0]
+                if root in mod.imports or root in _STD_ROOTS:
+                    continue        # a call into an imported module / package
+                rep.check(False, rid, fi.qualname, "call of `.%s()`, which nothing defines" % nm, fn_where(fi, c), "",
+                          "%s calls `%s`: no class, function or attribute named `%s` exists anywhere under src/dendropy and no standard type has one, so the call raises AttributeError as soon as an input reaches this line" % (fi.qualname, norm(c)[:70], nm))
     return n
 
 
